@@ -2,7 +2,7 @@
     (Gen/Fun2.v, by tools/pytrans2.py) are extensionally the model's rule functions (Model/Rules.v)
     for the glob model.  Recompiled against the regenerated source on every run. *)
 From InToto.Model Require Import Base Json PyLib Glob PyLibGlob Rule Rules.
-From InToto.Proofs Require Import PyLibFacts2 RulesProofs.
+From InToto.Proofs Require Import PyLibFacts2 PyLibFacts3 RulesProofs.
 From InToto.Gen Require Import Fun2.
 
 Lemma py_set_vstrs : forall l, py_set (vstrs l) = Ok (vsset (dedup l)).
@@ -170,3 +170,135 @@ Proof.
 Qed.
 
 Print Assumptions tie_modify_rule.
+
+(** * MATCH: verify_match_rule regenerated from the source is the forward reading [match_rule_fwd]
+    (Proofs/PyLibFacts3.v), which has the same outcome as the model's [match_rule]
+    ([match_rule_fwd_same]: same error, or the same set of consumed paths).
+    rule_data is the dictionary unpack_rule returns (Tie/C17.v: [meaning_pv]); links are rendered as
+    name -> {materials, products}; hash records are dicts of strings (formats._check_hash_dict). *)
+Definition meaning_pv (m : meaning) : pyval := inj (meaning_json m).
+
+Section RD.
+  Variables (pat sp : str) (d : dkind) (dp step : str).
+  Let rd := meaning_pv (Match pat sp d dp step).
+  Lemma rd_dest_name : py_index rd (VStr [100;101;115;116;95;110;97;109;101]%N) = Ok (VStr step).
+  Proof. reflexivity. Qed.
+  Lemma rd_dest_type : py_index rd (VStr [100;101;115;116;95;116;121;112;101]%N) = Ok (VStr (dkind_name d)).
+  Proof. reflexivity. Qed.
+  Lemma rd_source_prefix : py_index rd (VStr [115;111;117;114;99;101;95;112;114;101;102;105;120]%N) = Ok (VStr sp).
+  Proof. reflexivity. Qed.
+  Lemma rd_dest_prefix : py_index rd (VStr [100;101;115;116;95;112;114;101;102;105;120]%N) = Ok (VStr dp).
+  Proof. reflexivity. Qed.
+  Lemma rd_pattern : py_index rd (VStr [112;97;116;116;101;114;110]%N) = Ok (VStr pat).
+  Proof. reflexivity. Qed.
+End RD.
+
+Lemma truthy_vstr : forall s, truthy (VStr s) = match s with [] => false | _ => true end.
+Proof. reflexivity. Qed.
+
+Lemma full_path_join : forall p r, p <> [] ->
+  (do t <- py_path_join (VStr p) (VStr r); py_replace1 t (VStr [92%N]) (VStr [47%N])) = Ok (VStr (full_path p r)).
+Proof. intros p r Hp. destruct p; [contradiction|]. reflexivity. Qed.
+
+Theorem tie_match_rule : forall pat sp d dp step queue (src : amap) (ls : links),
+  amap_hashrecs src = true ->
+  (forall l, lookup step ls = Some l -> amap_hashrecs (arts d l) = true) ->
+  f_verify_match_rule (meaning_pv (Match pat sp d dp step)) (vsset queue) (inj_amap src) (links_pv ls) =
+  res_map2 vsset (match_rule_fwd pat sp d dp step queue src ls).
+Proof.
+  intros pat sp d dp step queue src ls Hsrc Hdest.
+  unfold f_verify_match_rule, match_rule_fwd.
+  rewrite rd_dest_name. cbn [bind]. rewrite py_get_links. cbn [bind].
+  destruct (lookup step ls) as [dl|] eqn:El; [|reflexivity].
+  specialize (Hdest dl eq_refl).
+  assert (truthy (py_not (link_pv dl)) = false) as -> by reflexivity.
+  rewrite rd_dest_type. cbn [bind]. rewrite py_getattr_link. cbn [bind].
+  rewrite rd_source_prefix. cbn [bind].
+  (* the body of the consuming loop, whatever the prefixes are *)
+  assert (forall (body : pyval -> pyval -> res pyval),
+            (forall r acc, body (VStr r) (vsset acc) = res_map2 vsset (match_step sp dp src (arts d dl) r acc)) ->
+            forall globbed,
+              (do v_consumed <- py_for (vstrs globbed) (VSet []) body; Ok v_consumed) =
+              res_map2 vsset (fold_res (match_step sp dp src (arts d dl)) globbed [])) as Hloop.
+  { intros body Hb globbed. unfold py_for, vstrs. cbn [py_iter bind].
+    change (VSet []) with (vsset []).
+    rewrite (py_fold_strs vsset body _ Hb). destruct (fold_res _ globbed []); reflexivity. }
+  destruct sp as [|c sp'].
+  - (* no source prefix: the queue itself is filtered *)
+    cbn [truthy bind].
+    rewrite rd_pattern. cbn [bind]. rewrite fnmatch_filter_set.
+    destruct (fnfilter glob_match queue pat) as [globbed|e]; [|reflexivity].
+    cbn [res_map2 bind]. apply Hloop. intros r acc. cbv beta.
+    rewrite ?rd_source_prefix, ?rd_dest_prefix. cbn [bind truthy].
+    unfold match_step. cbn [full_path].
+    destruct dp as [|c' dp'].
+    + cbn [truthy bind full_path]. rewrite !py_index_amap.
+      destruct (lookup r src) as [hs|] eqn:Es; [|reflexivity]. cbn [bind].
+      destruct (lookup r (arts d dl)) as [hd|] eqn:Ed; [|reflexivity].
+      cbn [py_catch bind py_ne].
+      rewrite (pv_eqb_hashrec hs hd (lookup_hashrec _ _ _ Hsrc Es) (lookup_hashrec _ _ _ Hdest Ed)).
+      destruct (py_eqb hs hd); [|reflexivity]. cbn [negb vb truthy bind].
+      unfold py_set_add, vsset. rewrite pv_mem_vstr. destruct (mem_str r acc); [reflexivity|].
+      cbn [bind res_map2]. unfold vsset. rewrite map_app. reflexivity.
+    + cbn [truthy bind]. rewrite py_path_join_str. cbn [bind]. rewrite py_replace_bs. cbn [bind].
+      rewrite !py_index_amap.
+      destruct (lookup r src) as [hs|] eqn:Es; [|reflexivity]. cbn [bind].
+      change (full_path (c' :: dp') r) with (replace_bs (posix_join (c' :: dp') r)).
+      destruct (lookup (replace_bs (posix_join (c' :: dp') r)) (arts d dl)) as [hd|] eqn:Ed; [|reflexivity].
+      cbn [py_catch bind py_ne].
+      rewrite (pv_eqb_hashrec hs hd (lookup_hashrec _ _ _ Hsrc Es) (lookup_hashrec _ _ _ Hdest Ed)).
+      destruct (py_eqb hs hd); [|reflexivity]. cbn [negb vb truthy bind].
+      unfold py_set_add, vsset. rewrite pv_mem_vstr. destruct (mem_str r acc); [reflexivity|].
+      cbn [bind res_map2]. unfold vsset. rewrite map_app. reflexivity.
+  - (* a source prefix: strip it from the queued paths that carry it *)
+    cbn [truthy bind].
+    rewrite ?rd_source_prefix. cbn [bind]. rewrite py_path_join_str. cbn [bind]. rewrite py_replace_bs. cbn [bind].
+    change (replace_bs (posix_join (c :: sp') [])) with (norm_prefix (c :: sp')).
+    set (np := norm_prefix (c :: sp')).
+    unfold py_for at 1. unfold vsset at 1. cbn [py_iter bind].
+    change (VList []) with (vstrs []).
+    rewrite (py_fold_strs vstrs _ (prefix_step np)).
+    2:{ intros a acc. unfold prefix_step. cbn [py_startswith bind].
+        destruct (starts_with np a); cbn [vb truthy res_map2]; [|reflexivity].
+        rewrite py_slice_from_len. cbn [bind]. unfold py_append, vstrs. rewrite map_app. reflexivity. }
+    destruct (fold_res (prefix_step np) queue []) as [filtered|e] eqn:Ef; [|rewrite prefix_fold in Ef; discriminate].
+    cbn [res_map2 bind].
+    rewrite rd_pattern. cbn [bind]. rewrite fnmatch_filter_list.
+    destruct (fnfilter glob_match filtered pat) as [globbed|e]; [|reflexivity].
+    cbn [res_map2 bind]. apply Hloop. intros r acc. cbv beta.
+    rewrite ?rd_source_prefix, ?rd_dest_prefix. cbn [bind truthy].
+    rewrite py_path_join_str. cbn [bind]. rewrite py_replace_bs. cbn [bind].
+    unfold match_step.
+    change (full_path (c :: sp') r) with (replace_bs (posix_join (c :: sp') r)).
+    destruct dp as [|c' dp'].
+    + cbn [truthy bind full_path]. rewrite !py_index_amap.
+      destruct (lookup (replace_bs (posix_join (c :: sp') r)) src) as [hs|] eqn:Es; [|reflexivity]. cbn [bind].
+      destruct (lookup r (arts d dl)) as [hd|] eqn:Ed; [|reflexivity].
+      cbn [py_catch bind py_ne].
+      rewrite (pv_eqb_hashrec hs hd (lookup_hashrec _ _ _ Hsrc Es) (lookup_hashrec _ _ _ Hdest Ed)).
+      destruct (py_eqb hs hd); [|reflexivity]. cbn [negb vb truthy bind].
+      unfold py_set_add, vsset. rewrite pv_mem_vstr. destruct (mem_str _ acc); [reflexivity|].
+      cbn [bind res_map2]. unfold vsset. rewrite map_app. reflexivity.
+    + cbn [truthy bind]. rewrite py_path_join_str. cbn [bind]. rewrite py_replace_bs. cbn [bind].
+      rewrite !py_index_amap.
+      destruct (lookup (replace_bs (posix_join (c :: sp') r)) src) as [hs|] eqn:Es; [|reflexivity]. cbn [bind].
+      change (full_path (c' :: dp') r) with (replace_bs (posix_join (c' :: dp') r)).
+      destruct (lookup (replace_bs (posix_join (c' :: dp') r)) (arts d dl)) as [hd|] eqn:Ed; [|reflexivity].
+      cbn [py_catch bind py_ne].
+      rewrite (pv_eqb_hashrec hs hd (lookup_hashrec _ _ _ Hsrc Es) (lookup_hashrec _ _ _ Hdest Ed)).
+      destruct (py_eqb hs hd); [|reflexivity]. cbn [negb vb truthy bind].
+      unfold py_set_add, vsset. rewrite pv_mem_vstr. destruct (mem_str _ acc); [reflexivity|].
+      cbn [bind res_map2]. unfold vsset. rewrite map_app. reflexivity.
+Qed.
+Print Assumptions tie_match_rule.
+
+(** the regenerated function against the model's [match_rule] itself *)
+Theorem tie_match_rule_model : forall pat sp d dp step queue (src : amap) (ls : links),
+  amap_hashrecs src = true ->
+  (forall l, lookup step ls = Some l -> amap_hashrecs (arts d l) = true) ->
+  exists r, f_verify_match_rule (meaning_pv (Match pat sp d dp step)) (vsset queue) (inj_amap src) (links_pv ls) = res_map2 vsset r
+            /\ res_same r (match_rule glob_match pat sp d dp step queue src ls).
+Proof.
+  intros. eexists. split; [apply tie_match_rule; assumption | apply match_rule_fwd_same].
+Qed.
+Print Assumptions tie_match_rule_model.
